@@ -2,7 +2,7 @@
 from .. import core
 from ..core import Suite
 
-LEAN_TARGETS = ['Uds.Props.C09', 'Uds.Props.C09Call', 'Uds.Props.C09Hist', 'Uds.Props.CallUnify']
+LEAN_TARGETS = ['Uds.Props.C09', 'Uds.Props.C09Call', 'Uds.Props.C09Hist', 'Uds.Props.C09Block', 'Uds.Props.CallUnify']
 ASSUMPTIONS = [
     'with payload_override nested inside the block the override receives the payload after bit 7 was set (client.py:2238-2245); a literal override transmits the caller\'s bytes',
     'entry points of the simple services are modelled at call level (13 entry points + the unlock composite); the send_request part is common to all 80',
